@@ -215,5 +215,46 @@ func corpus() []*History {
 		opWithdraw(151, 0),
 		Op{Kind: "query"}).AtomSet = "k5"
 
+	// W14 (positive): the boundaries the mutation study showed the other witnesses do not reach: cap = price,
+	// block time exactly at the start / end of a time promotion, a volume tier reached, super-mode time-out
+	// (no slash) and super-mode malformed answer (slash), answers by a stranger / twice / after the expiry
+	// block, a killed context that is still answered and then removed, refused pause / kill / update / start.
+	{
+		t0 := time0.Unix()
+		promo := PricingArg{Kind: "P", Price: "10", Denom: denom, T: []PT{{Start: t0 + 5, End: t0 + 10, Disc: "0.5"}}, V: []PV{{Vol: 1, Disc: "0.5"}}}
+		super := func(tx uint64) Op {
+			o := opCall(tx, 1, []int64{127}, 112, 1000, 2, false, 0, 0)
+			o.Super = true
+			return o
+		}
+		upd := Op{Kind: "updctx", Tx: 3005, Who: 113, Dep: CoinsArg{Kind: "E"}, Freq: 3}
+		add("W14-positive-boundaries", 0, append(rich(101), [2]int64{111, 1000}, [2]int64{112, 1000}, [2]int64{113, 1000}),
+			opDefine(1, 101),
+			opBind(1, 126, 101, base(20000), promo, 1),
+			opBind(1, 127, 101, base(20000), price("10"), 2),
+			opCall(3001, 1, []int64{126}, 111, 10, 1, true, 1, -1), // A: cap = price
+			super(3002), // B: never answered
+			super(3003), // C: answered with a malformed output
+			opCall(3004, 1, []int64{127}, 113, 1000, 2, false, 0, 0),       // D: one-shot
+			opCall(3005, 1, []int64{127}, 113, 1000, 2, true, 2, 2),        // E: killed in flight
+			opModCall(3006, 1, []int64{127}, 113, 1000, 2, false, 0, 0, 1), // F: module-created
+			opCtx("kill", 3004, 113),                                       // refused: not repeated
+			opCtx("pause", 3004, 113),                                      // refused: not repeated
+			opCtx("pause", 3006, 113),                                      // refused: module-created
+			opEB(5*sec),
+			opRespond(3001, 1, 10, 0, 141, 200, 1, true),  // refused: a stranger
+			opRespond(3001, 1, 10, 0, 126, 200, 2, true),  // accepted, volume 1
+			opRespond(3001, 1, 10, 0, 126, 200, 3, true),  // refused: already answered
+			opRespond(3003, 1, 10, 0, 127, 200, 4, false), // accepted, slashed although super mode
+			opCtx("kill", 3005, 113),
+			upd,                                          // refused: completed
+			opCtx("start", 3005, 113),                    // refused: completed
+			opRespond(3005, 1, 10, 0, 127, 200, 5, true), // accepted: the batch of a killed context is still answerable
+			opEB(5*sec),                                  // A: batch 2 at the very start of the promotion, volume tier reached: fee 2
+			opEB(5*sec),                                  // A: batch 2 times out (slash, refund), batch 3 at the very end of the promotion: fee 5; B times out unslashed; E removed
+			opRespond(3001, 2, 11, 0, 126, 200, 6, true), // refused: after the expiry block
+			opEB(5*sec))
+	}
+
 	return hs
 }
